@@ -17,7 +17,7 @@ from .mir import cmpcfg
 PID = "C03"
 
 FT_ALL = ["T", "Option<T>", "std::boxed::Box<T>", "std::vec::Vec<T>", "core::marker::PhantomData<T>", "&'a T", "(T, U)", "[T; N]", "fn(T) -> U", "*const T", "u8",
-          "<T as HasOut>::Out", "[u8; N]", "Option<(U, &'a u8)>", "T::Out", "Option<T::Out>", "::std::vec::Vec<T>", "::core::option::Option<(u8, U)>"]
+          "<T as HasOut>::Out", "[u8; N]", "Option<(U, &'a u8)>", "T::Out", "Option<T::Out>", "::std::vec::Vec<T>", "::core::option::Option<(u8, U)>", "Option<std::boxed::Box<Self>>"]
 FT_OPS = ["T", "u8", "(T, U)", "core::marker::PhantomData<T>", "<T as HasOut>::Out", "U", "T::Out"]
 
 STUB = {
@@ -192,6 +192,9 @@ def shapes_for(trait, tier, rnd):
         pairs = [("T", "Option<U>"), ("core::marker::PhantomData<T>", "U"), ("u8", "(T, U)"), ("[T; N]", "&'a U")]
     for a, b in pairs:
         out.append(Shape("2[%s|%s]" % (a, b), [(a, [], {}), (b, [], {})]))
+    if trait not in PROBES and trait != "Copy":
+        # a recursive type that names itself through `Self`: that field mentions no parameter and contributes no bound
+        out.append(Shape("2[T|Option<Box<Self>>]", [("T", [], {}), ("Option<std::boxed::Box<Self>>", [], {})]))
     # fields the derived code does not use contribute no bound
     if trait == "Debug":
         out.append(Shape("debug-ignore-first", [("T", ["#[debug(ignore)]"], {"Debug": False}), ("Option<U>", [], {})]))
